@@ -148,6 +148,10 @@ impl Story {
             return Err(StoryError::BadArgument(e));
         }
 
+        // Reject bad arguments before the pending output is set aside and the
+        // evaluation frame is pushed.
+        StoryState::validate_arguments(args)?;
+
         // Snapshot the output stream
         let output_stream_before = self.get_state().get_output_stream().clone();
         self.get_state_mut().reset_output(None);
